@@ -10,7 +10,10 @@ for m in sorted(glob.glob(os.path.join(os.path.dirname(__file__), "..", "seeded"
         g = re.search(r"violation\[([^\]]+)\]", l)
         if g and g.group(1) not in sigs:
             sigs.append(g.group(1))
-    rows.append((name, d.get("summary", "").replace("|", "/")[:230], "yes" if v.get("detected") else "NO",
+    status = "yes" if v.get("detected") else "NO"
+    if not v.get("detected") and v.get("demo_mutant_fail") is False:
+        status = "obsolete (after later fixes in /repo the change no longer alters behaviour: its demo passes)"
+    rows.append((name, d.get("summary", "").replace("|", "/")[:230], status,
                  "; ".join(s[:70] for s in sigs[:3]).replace("|", "/")))
 print("| change | what it does | detected (quick) | first signatures |\n|---|---|---|---|")
 for r in rows:
